@@ -15,15 +15,16 @@ Import ListNotations.
 Local Open Scope N_scope.
 
 Section Adapter.
-Variable cap : nat.            (* capacity of the forkless-cause LRU (IndexCacheConfig.ForklessCausePairs) *)
+Variable ep : N.               (* the epoch the events belong to *)
 Variable lam : fev -> N.       (* Lamport time given to an event; consensus does not look at it *)
 
 Definition to_aevent (vals : list (N * N)) (e : fev) : aevent :=
-  {| a_id := eid (fe e); a_epoch := 1; a_creator := vid vals (ecr (fe e)); a_seq := eseq (fe e);
+  {| a_id := eid (fe e); a_epoch := ep; a_creator := vid vals (ecr (fe e)); a_seq := eseq (fe e);
      a_lamport := lam e; a_frame := ffr e; a_parents := epar (fe e) |}.
 
 Definition abft_ops (vals : list (N * N)) (D : list fev) : list op :=
   flat_map (fun e => [OpB (to_aevent vals e); OpP (to_aevent vals e)]) D.
+End Adapter.
 
 (* result codes of the reference: 0 accepted, 1 wrong frame, 2 not offered (guard), 9 = crit/panic *)
 Definition code_of (r : option err) : N :=
@@ -40,10 +41,10 @@ Fixpoint render (os : list AbftRun.obs) : obs_t :=
   | _ => ([], [])
   end.
 
-(* the model of the implementation as an [impl_model] (no sealing policy: one epoch) *)
-Definition abft_run : impl_model :=
-  fun vals D => render (run cap [] sample (start 1 vals) (abft_ops vals D)).
-End Adapter.
+(* the model of the implementation as an [impl_model] (no sealing policy: one epoch, numbered 1;
+   cap = capacity of the forkless-cause LRU, IndexCacheConfig.ForklessCausePairs) *)
+Definition abft_run (cap : nat) (lam : fev -> N) : impl_model :=
+  fun vals D => render (run cap [] sample (start 1 vals) (abft_ops 1 lam vals D)).
 
 (* ---------- side conditions of the refinement ---------- *)
 (* Event ids are hashes in the implementation; IndexedLachesis.Build gives the speculative event a
@@ -85,7 +86,7 @@ Proof.
   assert (NDD : NoDup D1) by (apply (NoDup_map_inv (fun e => eid (fe e))); exact ND).
   pose proof (NoDup_incl_length NDD I) as Len.
   split; [exact V|]. split; [|lia].
-  intros e He (ep & lm & c & t & Bc & S & E). apply (F e (I e He)). exists ep, lm, c, t. split; [lia | auto].
+  intros e He (ep0 & lm & c & t & Bc & S & E). apply (F e (I e He)). exists ep0, lm, c, t. split; [lia | auto].
 Qed.
 
 Theorem C01_on_from_refinement (side : list (N * N) -> list fev -> Prop) (run : impl_model) :
